@@ -62,13 +62,26 @@ pub fn format(
 }
 
 fn format_block(content: &str, pos: usize, formatters: &[Box<dyn Formatter>]) -> Range<usize> {
-    formatters.iter().fold(pos..pos, |range, f| {
+    let range = formatters.iter().fold(pos..pos, |range, f| {
         let (start, end) = f.format(content, pos);
         let start = start.min(range.start);
         let end = end.max(range.end);
 
         start..end
-    })
+    });
+
+    // On the first line of the file no line break precedes the blanks left in front of a removed
+    // line break, so IndentRemover does not see them: they go with the line break.
+    let is_blank_up_to_start = content
+        .bytes()
+        .take(range.start)
+        .all(|b| b == b' ' || b == b'\t');
+
+    if range.end > pos && is_blank_up_to_start {
+        0..range.end
+    } else {
+        range
+    }
 }
 
 fn merge_ranges(ranges: &mut Vec<Range<usize>>, new_ranges: Vec<Range<usize>>) {
